@@ -1,33 +1,67 @@
-"""Kani side (DESIGN 3.5): loop-free harnesses on the real codec leaf methods that the Verus side assumes.
-Thorough tier only (quick tier reports them as not run).  The crate is copied to a scratch directory outside /repo
-and /verif, the harness module is appended to src/lib.rs there, `cargo kani` runs offline, the copy is removed."""
+"""Kani side (DESIGN 3.5): harnesses on the REAL crate: the codec leaf methods that the Verus side assumes (loop-free,
+complete), the name order on listed pairs (bounded) - both cheap enough for the quick tier - and the timestamp
+conversion over its whole domain (thorough tier).  The crate is copied to a scratch directory outside /repo and /verif,
+the harness module is appended to src/lib.rs there, `cargo kani` runs offline, the copy is removed.  Results are
+memoised under build/cache keyed by the SHA-256 of /repo/src, Cargo.toml and the harness file (the same sources give
+the same verdict), so that several properties checked in one session share one Kani run."""
 import json, os, re, shutil, subprocess, tempfile, time
 
 ROOT = os.path.dirname(os.path.dirname(os.path.abspath(__file__)))
 REPO = os.environ.get('VERIF_REPO', '/repo')
 
-# harness -> (properties, bounded?, bound text)
+# harness -> (properties, bounded?, bound text, tier)
 HARNESSES = {
-    'k_write_le_u16': (('C02', 'C03', 'C18'), False, None),
-    'k_write_le_u32': (('C02', 'C03', 'C18'), False, None),
-    'k_write_le_u64': (('C02', 'C03', 'C17', 'C18'), False, None),
-    'k_read_le_u16': (('C04', 'C12', 'C18'), False, None),
-    'k_read_le_u32': (('C04', 'C12', 'C18'), False, None),
-    'k_read_le_u64': (('C04', 'C12', 'C17', 'C18'), False, None),
-    'k_names_ascii_order': (('C03', 'C04', 'C09'), True, 'the 7 listed ASCII name pairs (a symbolic harness over all 2-byte names did not finish in 15 min)'),
-    'k_names_len_first': (('C03', 'C04', 'C09'), True, 'the 4 listed name pairs of different UTF-16 length, with supplementary-plane characters'),
+    'k_write_le_u16': (('C02', 'C03', 'C18'), False, None, 'quick'),
+    'k_write_le_u32': (('C02', 'C03', 'C18'), False, None, 'quick'),
+    'k_write_le_u64': (('C02', 'C03', 'C17', 'C18'), False, None, 'quick'),
+    'k_read_le_u16': (('C04', 'C12', 'C18'), False, None, 'quick'),
+    'k_read_le_u32': (('C04', 'C12', 'C18'), False, None, 'quick'),
+    'k_read_le_u64': (('C04', 'C12', 'C17', 'C18'), False, None, 'quick'),
+    'k_names_ascii_order': (('C01', 'C03', 'C04', 'C09'), True, 'the 7 listed ASCII name pairs (a symbolic harness over all 2-byte names did not finish in 15 min)', 'quick'),
+    'k_names_len_first': (('C01', 'C03', 'C04', 'C09'), True, 'the 4 listed name pairs of different UTF-16 length, with supplementary-plane characters', 'quick'),
+    'k_timestamp_from_system_time': (('C17',), False, None, 'thorough'),
 }
 
 
+def _src_key():
+    import hashlib
+    h = hashlib.sha256()
+    for root in [os.path.join(REPO, 'src')]:
+        for d, _, fs in sorted(os.walk(root)):
+            for f in sorted(fs):
+                pth = os.path.join(d, f)
+                h.update(os.path.relpath(pth, REPO).encode())
+                h.update(open(pth, 'rb').read())
+    for pth in [os.path.join(REPO, 'Cargo.toml'), os.path.join(ROOT, 'kani', 'harness.rs')]:
+        h.update(open(pth, 'rb').read())
+    return h.hexdigest()[:24]
+
+
 def run_for_property(prop, tier, seed):
-    names = [h for h, (props, _, _) in HARNESSES.items() if prop in props]
+    mine = [h for h, (props, _, _, _) in HARNESSES.items() if prop in props]
+    names = [h for h in mine if tier == 'thorough' or HARNESSES[h][3] == 'quick']
     info = dict(harnesses=[], trusted=[], cmd=None, wall_s=0.0)
+    skipped = [h for h in mine if h not in names]
+    if skipped:
+        info['note'] = 'Kani harnesses %s run in the thorough tier only' % ', '.join(skipped)
     if not names:
         return info
-    if tier != 'thorough':
-        info['note'] = 'Kani harnesses %s run in the thorough tier only' % ', '.join(names)
-        return info
     t0 = time.time()
+    cdir = os.path.join(ROOT, 'build', 'cache', 'kani_' + _src_key())
+    cached = {}
+    if os.environ.get('VX_NOCACHE') != '1':
+        for h in names:
+            try:
+                cached[h] = json.load(open(os.path.join(cdir, h + '.json')))
+            except Exception:
+                pass
+    todo = [h for h in names if h not in cached]
+    info['cmd'] = 'cargo kani --harness <h>   (in a scratch copy of /repo with kani/harness.rs appended to src/lib.rs)'
+    info['trusted'] = ['Kani/CBMC 0.68 itself; std Cursor<[u8; N]> / <&[u8] as Read> as compiled by Kani']
+    if not todo:
+        info['harnesses'] = [cached[h] for h in names]
+        info['wall_s'] = round(time.time() - t0, 1)
+        return info
     scratch = tempfile.mkdtemp(prefix='vxkani_')
     try:
         dst = os.path.join(scratch, 'cfb')
@@ -35,7 +69,7 @@ def run_for_property(prop, tier, seed):
         with open(os.path.join(dst, 'src', 'lib.rs'), 'a') as f:
             f.write('\n' + open(os.path.join(ROOT, 'kani', 'harness.rs')).read())
         env = dict(os.environ, CARGO_NET_OFFLINE='true')
-        for h in names:
+        for h in todo:
             cmd = ['cargo', 'kani', '--harness', h]
             p = subprocess.run(cmd, cwd=dst, env=env, stdout=subprocess.PIPE, stderr=subprocess.STDOUT, text=True,
                                timeout=1800)
@@ -46,11 +80,16 @@ def run_for_property(prop, tier, seed):
                 status = 'failed'
             else:
                 status = 'error: ' + out[-300:].replace('\n', ' ')
-            _, bounded, bound = HARNESSES[h]
-            info['harnesses'].append(dict(name=h, status=status, bounded=bounded, bound=bound,
-                                          tail=out[-1500:] if status != 'ok' else ''))
-        info['cmd'] = 'cargo kani --harness <h>   (in a scratch copy of /repo with kani/harness.rs appended to src/lib.rs)'
-        info['trusted'] = ['Kani/CBMC 0.68 itself; std Cursor<[u8; N]> / <&[u8] as Read> as compiled by Kani']
+            _, bounded, bound, _ = HARNESSES[h]
+            rec = dict(name=h, status=status, bounded=bounded, bound=bound, tail=out[-1500:] if status != 'ok' else '')
+            cached[h] = rec
+            if status in ('ok', 'failed'):
+                try:
+                    os.makedirs(cdir, exist_ok=True)
+                    json.dump(rec, open(os.path.join(cdir, h + '.json'), 'w'))
+                except Exception:
+                    pass
+        info['harnesses'] = [cached[h] for h in names if h in cached]
     finally:
         shutil.rmtree(scratch, ignore_errors=True)
     info['wall_s'] = round(time.time() - t0, 1)
